@@ -82,6 +82,19 @@ def gen_cases(tier, seed):
             runs = [rnd.choice(pool) for _ in range(5)]
         hist.append({"kind": "history", "history_kind": kind, "runs": [{"iso": i, "opts": copy.deepcopy(o)} for i, o in runs],
                      "share_opts": kind == "shared_options_object", "id": "history#%d/%s" % (k, kind)})
+    # a run with a numeric override followed by the same run without it (and back): an override must not outlive its run
+    overrides = [("milk_cattle_head", 50000), ("chicken_head", 123456), ("kg_meat_per_large_animal", 350), ("CROP_PRODUCTION_MULTIPLIER", 0.5),
+                 ("MINIMUM_PERCENT_FED_BEFORE_NONHUMAN_CONSUMPTION_ALLOWED", 50), ("meat_sheep_head", 1000), ("GRASSES_PRODUCTION_MULTIPLIER", 2), ("RATIO_STOCKS_UNTOUCHED", 0.5)]
+    rnd.shuffle(overrides)
+    for k, (key, val) in enumerate(overrides[: (4 if tier == "quick" else 8)] * (1 if tier == "quick" else 3)):
+        iso = rnd.choice(["ARG", "SWT", "IND", "FRA", "MNG", "ETH", "NZL", "PAK"])
+        o = workload.base_country(scenario=rnd.choice(["no_resilient_foods", "all_resilient_foods"]), shutoff=rnd.choice(["continued", "long_delayed_shutoff"]),
+                                  ratio_stocks_untouched=rnd.choice(["zero", "baseline"]), NMONTHS=rnd.choice([120, 72]))
+        o2 = dict(o)
+        o2[key] = val
+        runs = [(iso, o2), (iso, o), (iso, o2), (iso, o)]
+        hist.append({"kind": "history", "history_kind": "override_then_plain", "runs": [{"iso": i, "opts": copy.deepcopy(x)} for i, x in runs], "share_opts": False,
+                     "id": "override#%d/%s" % (k, key)})
     isos = workload.all_isos()
     for k in range(4 if tier == "quick" else 24):
         o = rnd.choice(good)[1]
